@@ -22,4 +22,21 @@ ImplMint2(amp, xa, xb, pa, pb, S) ==
   LET d0 == ImplComputeD2(amp, pa, pb)
       d1 == ImplComputeD2(amp, pa ++ xa, pb ++ xb)
   IN IF d1 \preceq d0 THEN [ok |-> FALSE, minted |-> Zero] ELSE [ok |-> TRUE, minted |-> (S ** (d1 -- d0)) // d0]
+\* ---- three-asset pool: stableswap_3pool/src/stableswap_math/curve.rs compute_d / compute_next_d /
+\* compute_mint_amount_for_deposit (the same iteration on Uint256 with three reserves; an overflow there aborts the call,
+\* which the transcription does not model: aborted calls are not compared)
+NextD3(ann, d, dprod, sumx) ==
+  (d ** ((dprod ** N(3)) ++ (sumx ** ann))) // ((d ** (ann -- One)) ++ (dprod ** N(4)))
+RECURSIVE D3Iter(_, _, _, _, _, _, _)
+D3Iter(ann, a3, b3, c3, sumx, d, k) ==
+  IF k = 0 THEN d
+  ELSE LET dprod == ((((((d ** d) // a3) ** d) // b3) ** d) // c3)
+           dn == NextD3(ann, d, dprod, sumx)
+           diff == IF d \prec dn THEN dn -- d ELSE d -- dn
+       IN IF diff \preceq One THEN dn ELSE D3Iter(ann, a3, b3, c3, sumx, dn, k - 1)
+ImplComputeD3(amp, a, b, c) == D3Iter(amp ** N(3), a ** N(3), b ** N(3), c ** N(3), (a ++ b) ++ c, (a ++ b) ++ c, 256)
+ImplMint3(amp, xa, xb, xc, pa, pb, pc, S) ==
+  LET d0 == ImplComputeD3(amp, pa, pb, pc)
+      d1 == ImplComputeD3(amp, pa ++ xa, pb ++ xb, pc ++ xc)
+  IN IF d1 \preceq d0 THEN [ok |-> FALSE, minted |-> Zero] ELSE [ok |-> TRUE, minted |-> (S ** (d1 -- d0)) // d0]
 =============================================================================
